@@ -22,6 +22,20 @@ CHECKS = {
              "position / entry point has a witness inside the bounds.",
         note="Trusted: vf/refsem.py as the intended denotation; CPython's operators. Values "
              "outside the boxes and nestings deeper than three levels are not explored."),
+    "C06": dict(
+        category="exploration", design="DESIGN.md 4/C06",
+        technique="bounded-exhaustive enumeration of printable trees (all parent/position/child "
+                  "nestings and three-level chains), each printed, re-parsed and compared",
+        text="Every shape of the printable fragment with every leaf combination (negative, "
+             "fractional, boolean constants included), every (parent, position, child) nesting "
+             "and every three-level chain (thorough: the whole fragment, ~490k trees) is printed, "
+             "parsed back, compared after Sum/Product flattening with strict constant types, "
+             "evaluated against the reference semantics on a box when the trees differ, and "
+             "re-printed. The printer/parser interaction is local to a node and its direct "
+             "parent, so three levels cover every precedence/associativity interaction.",
+        note="Trusted: spec reader vf/spec.py, reference semantics for the value "
+             "classification. Known parser/printer deviations are listed in "
+             "known_findings.jsonl by minimal failing (parent, position, child) signature."),
 }
 
 NOT_BUILT_REASON = "check not built yet in this revision (planned, see DESIGN.md section 4)"
